@@ -291,7 +291,7 @@ func step(kind, path, to string, mut bool) int {
 			hit = true
 		}
 		if failAt != 0 && count == failAt {
-			failAt, failReadAt, reads, failShort = 0, 0, 0, false
+			failAt = 0
 			op.Kind += "!fault"
 			if logOn {
 				log = append(log, op)
